@@ -92,11 +92,11 @@ ALL = ['C%02d' % i for i in range(1, 21)]
 
 # later additions (kept apart so the original claim texts stay readable): appended to the claim text / replacing stale fragments of the notes
 ADD_TEXT = {
- 'C01': 'runThisAfterLoop: the eventfd is closed once and no wake-up flag is left raised for the next run of the same loop.',
+ 'C01': 'runThisAfterLoop: the eventfd is closed once and no wake-up flag is left raised for the next run of the same loop. Guarded-by obligations on the cross-thread queue and its wake-up flag (every access holds lock_).',
  'C02': 'TimerEventImpl enable / disable / initialize / onEvent (one registration per enabled event, one-shot disabled before its callback).',
  'C03': 'SelectLoop::fillFdSets: a descriptor is in the read/write/except set handed to select() iff the loop holds enabled events of that kind for it (descriptor 0 included), nfds covers it.',
  'C04': 'CommonLoop::onSignal: the pipe is read in whole signal numbers and every subscriber of every number read is called exactly once. SignalHandlerFunc: the previously installed handler is chained exactly once (never for default/ignore dispositions), every listening loop gets one write of the signal number.',
- 'C05': 'ThreadPool::execute and the whole of WorkThread (execute, popOneTask, cancel with the order of the remaining tasks, worker loop, cleanup, guarded-by stop flag) are under contract as well.',
+ 'C05': 'ThreadPool::execute and the whole of WorkThread (execute, popOneTask, cancel with the order of the remaining tasks, worker loop, cleanup, guarded-by stop flag) are under contract as well; the guarded-by discipline covers every shared member of both Data records (queues, cabinets, executing set, object pool), not only the flags.',
  'C06': 'TcpConnection and TcpServer: the buffered descriptor / the connection object is disabled, detached and destroyed only by a posted task, exactly once; a peer close is reported exactly once; sends after the close are refused.',
  'C07': 'hasRead / hasWritten are proved for ANY size (no wrap of index + size).',
  'C09': 'Sink (filter, handleLog, setLevel / unsetLevel with the filter configuration guarded by the sink lock, cached timestamp string, enable/disable order), the AsyncSink back-end re-framing loop and the record formatting (every append inside its source object) are under contract as well.',
